@@ -353,13 +353,18 @@ where
     /// ```
     pub fn disconnect(&self, other: &K) -> Result<E, Error> {
         match self.find_outbound(other) {
-            Some(other) => match self.inner.2.borrow_mut().remove_outbound(other.key()) {
-                Ok(edge) => {
-                    other.inner.2.borrow_mut().remove_inbound(self.key())?;
-                    Ok(edge)
+            Some(other) => {
+                // Release this node's own borrow before touching `other`,
+                // which is the same node when the edge is a self-loop.
+                let removed = self.inner.2.borrow_mut().remove_outbound(other.key());
+                match removed {
+                    Ok(edge) => {
+                        other.inner.2.borrow_mut().remove_inbound(self.key())?;
+                        Ok(edge)
+                    }
+                    Err(err) => Err(err),
                 }
-                Err(err) => Err(err),
-            },
+            }
             None => Err(Error::EdgeNotFound),
         }
     }
